@@ -61,7 +61,13 @@ def one(mod, runner, stats, p, kind, cseed, origin, known_patterns, use_model=Tr
             i = verdict[0] if verdict else None
             stats.divergences.append(dict(case, kind="model-rejects-impl-trace", index=i, expected=exp, got=verdict,
                                           around=events[max(0, (i or 0) - 4):(i or 0) + 2] if i is not None and i >= 0 else None))
-    for v in mod.monitor(r, obs):
+    verdicts = list(mod.monitor(r, obs))
+    if getattr(mod, "PROP", None) in ("C02", "C06"):
+        for e in r.log:
+            if e[1] == "lib.cancel-nonbool":
+                verdicts.append({"what": "cancel() of library future %s returned %s, not a bool" % (e[2], e[3]), "detail": str(e), "pattern": "proto:cancel-nonbool"})
+                break
+    for v in verdicts:
         if v.get("pattern") in known_patterns:
             if v["pattern"] not in stats.known:
                 stats.known[v["pattern"]] = dict(v, case=case)
